@@ -838,9 +838,11 @@ class FlatSamplerCache:
             debug_info = api_util.debug_info("_make_flat", f, args, kwargs)
             jaxpr, *_ = stage(f)(*args, **kwargs)
 
-            def flat(*flat_args, **params):
+            def flat(key, *flat_args, **params):
+                # The site is bound as (*consts, *args), where consts are the
+                # arrays the sampler closes over; the key comes first.
                 consts, args = split_list(flat_args, [params["num_consts"]])
-                return eval_jaxpr(jaxpr.jaxpr, consts, *args)
+                return eval_jaxpr(jaxpr.jaxpr, consts, key, *args)
 
             return flat, debug_info
 
